@@ -623,7 +623,7 @@ def run_sim(case):
         return out_info
     state = gen.state_of(desc)
     _, mag = ref.rate_law(desc, state, None)
-    maxrate = max([m / (abs(s) + 1.0) for m, s in zip(mag, state)] + [1e-3])
+    maxrate = ref.max_rate(desc, state)
     dt = 0.02 / maxrate
     nsamp = r.randint(1, 6)
     policy = r.choice(["on_iteration", "on_t_sample", "on_interval"])
